@@ -165,7 +165,7 @@ Definition omap2 (f : Q -> Q -> option Q) (a b : list Q) : list (option Q) :=
 Record ell : Type := mkEll { e_m00 : Q; e_ic : Q; e_jc : Q; e_a : Q; e_b : Q; e_c : Q }.
 
 Inductive ell_result : Type :=
-| EllIndexError                         (* a requested label >= len(bincount(labels)) *)
+| EllIndexError                         (* a negative requested label (the tables cover max(indexes) + 1) *)
 | EllNoPixels                           (* len(i) == 0 branch *)
 | EllRows (rows : list (option ell)).   (* None = nan (0/0) *)
 
@@ -178,7 +178,9 @@ Definition ellipse_moments (im : img) (idxs : list Z) : ell_result :=
       match nz with
       | [] => EllNoPixels
       | _ =>
-          let bc := fun (val : Z * Z * Z -> Q) => bincount 0%Q qadd 0 (map (fun p => (p_v p, val p)) nz) in
+          (* nlabels = np.max(indexes) + 1; every np.bincount(labels, ..., minlength=nlabels) *)
+          let nlabels := maxl idxs + 1 in
+          let bc := fun (val : Z * Z * Z -> Q) => bincount 0%Q qadd nlabels (map (fun p => (p_v p, val p)) nz) in
           let m00 := bc (fun _ => 1%Q) in
           let ic := omap2 qdiv (bc (fun p => inject_Z (p_y p))) m00 in
           let jc := omap2 qdiv (bc (fun p => inject_Z (p_x p))) m00 in
